@@ -158,6 +158,7 @@ class Interp:
         self.trace_loads = set()  # attribute names whose loads are recorded as events
         self.inline_skip = set()  # function quals not to inline (treated as opaque)
         self.loop_depth = 0
+        self.table_values = False
         # get_const is a trusted primitive (its body is checked structurally by C18-R3):
         # it returns a const module and raises nothing for a sanitised version string.
         self.opaque_handlers = {"const:get_const": lambda it, st, info, args, kwargs, node: [("val", st, ModV("const:?"))]}
@@ -730,7 +731,30 @@ class Interp:
             return Const(self.refl["consts"][ver or self.ctx.version]["MAX_NODE_ID"])
         if name == "get_handler_registry":
             return ExtV("const.get_handler_registry", base)
+        if self.table_values and ver is not None and name in ("VALID_MESSAGE_TYPES", "VALID_PAYLOADS"):
+            return self.table_value(ver, name)
         return Unknown(label=f"const.{name}")
+
+    def table_value(self, ver: str, name: str) -> V:
+        """Exact abstract value of a reflected const table (used by the C03 header-rule evaluation)."""
+        c = self.refl["consts"][ver]
+        if name == "VALID_MESSAGE_TYPES":
+            entries, keyobjs = {}, {}
+            for tval, rows in c["VALID_MESSAGE_TYPES"].items():
+                t = int(tval)
+                tname = next((n for n, v in c["enums"]["MessageType"]["canonical"] if v == t), None)
+                entries[t] = ListV([EnumMemV(r[0], ver, (r[1],)) for r in rows], label=f"vmt:{ver}:{t}")
+                keyobjs[t] = EnumMemV("MessageType", ver, (tname,)) if tname else Const(t)
+            d = DictV(entries, True, label=f"VALID_MESSAGE_TYPES:{ver}")
+            d.keyobjs = keyobjs
+            return d
+        entries = {}
+        for tval, rows in c["VALID_PAYLOADS"].items():
+            sub = {}
+            for sval, row in rows.items():
+                sub[int(sval)] = ExtObj(f"payloadrule:{ver}:{tval}:{sval}", "refl.validator", [Const(repr(row["d"]))])
+            entries[int(tval)] = DictV(sub, True, label=f"VALID_PAYLOADS:{ver}:{tval}")
+        return DictV(entries, True, label=f"VALID_PAYLOADS:{ver}")
 
     def module_attr(self, st, base: ModV, name, node) -> V:
         if base.name.startswith("const:"):
@@ -999,11 +1023,11 @@ class Interp:
             neg = isinstance(op, ast.NotIn)
             known = None
             if isinstance(b, (TupleV, ListV)) and getattr(b, "items", None) is not None:
-                keys = [i.key() for i in b.items]
-                if all(isinstance(i, (Const, EnumMemV)) for i in b.items) and isinstance(a, (Const,)):
-                    known = a.key() in keys
-                if isinstance(a, EnumMemV) and len(a.names) == 1 and all(isinstance(i, EnumMemV) and len(i.names) == 1 for i in b.items):
-                    known = any(self.enum_eq(a, i) for i in b.items)
+                eqs = [self.eq_known(st, a, i) for i in b.items]
+                if any(e is True for e in eqs):
+                    known = True
+                elif all(e is False for e in eqs):
+                    known = False
             if isinstance(b, DictV) and b.closed and isinstance(a, Const):
                 known = a.value in b.entries
             if known is not None:
@@ -1272,8 +1296,49 @@ class Interp:
 
         return self.seq(self.ev(node.value, st), fn)
 
+    def _comp_exact(self, node, st, elts):
+        """Comprehension over an exactly known iterable: element-wise evaluation (no forks allowed)."""
+        if len(node.generators) != 1:
+            return None
+        gen = node.generators[0]
+        outs = self.ev(gen.iter, st)
+        if len(outs) != 1 or outs[0][0] != "val":
+            return None
+        _k, s, itv = outs[0]
+        if isinstance(itv, TupleV) or (isinstance(itv, ListV) and itv.items is not None):
+            items = list(itv.items)
+        elif isinstance(itv, DictV) and itv.closed:
+            items = [getattr(itv, "keyobjs", {}).get(k, Const(k)) for k in itv.entries]
+        else:
+            return None
+        if len(items) > 80:
+            return None
+        rows = []
+        for item in items:
+            r = self.assign_target(s, gen.target, item, gen.target)
+            if len(r) != 1 or r[0][0] != "next":
+                return None
+            s = r[0][1]
+            keep = True
+            for cond in gen.ifs:
+                c = self.ev(cond, s)
+                if len(c) != 1 or c[0][0] != "val":
+                    return None
+                s = c[0][1]
+                t = self.truth(s, c[0][2])
+                if t is None:
+                    return None
+                keep = keep and t
+            if not keep:
+                continue
+            e = self.ev_list(elts, s)
+            if len(e) != 1 or e[0][0] != "val":
+                return None
+            s = e[0][1]
+            rows.append(e[0][2])
+        return s, rows
+
     def _comp(self, node, st, elts):
-        """Comprehension: evaluate generators once with an element symbol (0..n iterations)."""
         fr = st.frames[-1]
         saved = {}
         outs: List[Tuple[str, State, object]] = [("val", st, None)]
@@ -1319,6 +1384,11 @@ class Interp:
         return res
 
     def ev_ListComp(self, node, st):
+        if self.table_values:
+            ex = self._comp_exact(node, st.copy(), [node.elt])
+            if ex is not None:
+                s, rows = ex
+                return [("val", s, ListV([r[0] for r in rows], label=self.site_label(s, node, "lc")))]
         return [(k, s, ListV(None, elem=v[0], label=self.site_label(s, node, "lc")) if k == "val" else v) for k, s, v in self._comp(node, st, [node.elt])]
 
     ev_SetComp = ev_ListComp
@@ -1583,7 +1653,7 @@ class Interp:
             if isinstance(itv, TupleV) or (isinstance(itv, ListV) and itv.items is not None):
                 exact = list(itv.items)
             elif isinstance(itv, DictV) and itv.closed:
-                exact = [Const(k) for k in itv.entries]
+                exact = [getattr(itv, "keyobjs", {}).get(k, Const(k)) for k in itv.entries]
             elif isinstance(itv, ExtObj) and itv.cls == "dict_items" and isinstance(itv.args[0], DictV) and itv.args[0].closed:
                 exact = [TupleV([Const(k), v]) for k, v in itv.args[0].entries.items()]
             if exact is not None and len(exact) <= 6:
